@@ -11,7 +11,11 @@
 #endif
 void harness(void){
   matrix *xy,*S; NewMatrix(&xy,HP_K,2); initMatrix(&S); double X[HP_K], Y[HP_K];
+#if HP_WHICH==2
+  for(size_t i=0;i<HP_K;i++) X[i]=(double)(i*i)+0.5*(double)i-1.25;      /* concrete irregular knots: the piece search is decided by constants */
+#else
   X[0]=in_double(-1e4,1e4); for(size_t i=1;i<HP_K;i++){ double g=in_double(1e-4,1e4); X[i]=X[i-1]+g; }
+#endif
   for(size_t i=0;i<HP_K;i++){ Y[i]=in_double(-1e3,1e3); xy->data[i][0]=X[i]; xy->data[i][1]=Y[i]; }
 #if HP_LINE
   { double s=in_double(-10,10), c=in_double(-10,10); for(size_t i=0;i<HP_K;i++){ Y[i]=s*X[i]+c; xy->data[i][1]=Y[i]; } }
@@ -34,6 +38,17 @@ void harness(void){
 #if HP_LINE
   for(size_t j=0;j<NP;j++){ CHECK_EQ(C(j), 0.0, "straight line: no curvature"); CHECK_EQ(D(j), 0.0, "straight line: no cubic term"); CHECK_EQ(B(j)*(X[j+1]-X[j]), Y[j+1]-Y[j], "straight line: slope reproduced"); }
 #endif
+#elif HP_WHICH==2
+  /* evaluation is a pure function of x: ONE call with the query abscissae (every knot and every midpoint, concrete values) in the
+   * order HP_QORDER returns, for each, the value of the piece that contains it - whatever the order of the queries */
+  { static const int qo[] = { HP_QORDER }; size_t nq=sizeof(qo)/sizeof(qo[0]);
+    dvector *xq,*yp; NewDVector(&xq,nq); initDVector(&yp);
+    for(size_t q=0;q<nq;q++){ int c=qo[q]; xq->data[q] = (c%2==0) ? X[c/2] : 0.5*(X[c/2]+X[c/2+1]); }       /* code 2i = knot i, 2i+1 = midpoint of piece i */
+    cubic_spline_predict(xq,S,yp);
+    CHECK(yp->size==nq, "one prediction per abscissa");
+    for(size_t q=0;q<nq;q++){ int c=qo[q]; size_t pj = (c%2==0) ? ((size_t)(c/2)<NP ? (size_t)(c/2) : NP-1) : (size_t)(c/2);
+      if(c%2==0 && c/2>0 && (size_t)(c/2)<NP) pj=(size_t)(c/2)-1;          /* an interior knot is found in the piece it closes (<= on the right end) */
+      double t=xq->data[q]-X[pj]; CHECK_EQ(yp->data[q], A(pj)+B(pj)*t+C(pj)*t*t+D(pj)*t*t*t, "each query is evaluated with the polynomial of the piece that contains it, in any query order"); } }
 #else
   dvector *xq,*yp; NewDVector(&xq,HP_K+1); initDVector(&yp);
   for(size_t i=0;i<HP_K;i++) xq->data[i]=X[i];
